@@ -7,6 +7,7 @@ package opdb
 import (
 	"context"
 	"sync"
+	"time"
 )
 
 // OrderedWriter makes the writes of one (namespace, key) reach the Store in
@@ -118,4 +119,41 @@ func (w *OrderedWriter) Delete(ctx context.Context, namespace, key string) error
 	return w.perform(id, k, seq, true, func() error {
 		return w.store.Delete(ctx, namespace, key)
 	})
+}
+
+const (
+	deleteRetryAttempts = 6
+	deleteRetryBaseWait = 50 * time.Millisecond
+)
+
+// DeleteEventually is Delete for a key whose owner is gone for good (a
+// released session): when the Store reports an error the delete is repeated
+// in the background with exponential backoff instead of being given up,
+// because an image that survives the release brings the session back on the
+// next restart. The first attempt's error is returned; onGiveUp (may be nil)
+// is called if every retry failed as well. ctx cancels the retries.
+func (w *OrderedWriter) DeleteEventually(ctx context.Context, namespace, key string, onGiveUp func(error)) error {
+	err := w.Delete(ctx, namespace, key)
+	if err == nil {
+		return nil
+	}
+	go func() {
+		wait := deleteRetryBaseWait
+		last := err
+		for attempt := 0; attempt < deleteRetryAttempts; attempt++ {
+			select {
+			case <-ctx.Done():
+				return
+			case <-time.After(wait):
+			}
+			if last = w.Delete(ctx, namespace, key); last == nil {
+				return
+			}
+			wait *= 2
+		}
+		if onGiveUp != nil {
+			onGiveUp(last)
+		}
+	}()
+	return err
 }
